@@ -26,6 +26,7 @@ func init() {
 		// generous internal deadline: the run takes 1-2 minutes on an idle machine and several times that next to other jobs
 		QuickBudget: 900,
 		Rule: "G1 capture/shadowing: all combinations of {assignment before definition, between definition and call, after the first call} x 12 body shapes (read, :=, +=, derived local, inner closure created before a local reassignment, inner assignment, closure returned and called later, sibling closures sharing a frame, two-variable shadowing, closure over a parameter, nested definition scopes) x wrapper nesting 0..2; " +
+			"G16 parameters that receive nothing: 7 call shapes (keyword left out, nested literals with the same keyword, method, iterator, positional left out, chain block, variable assigned later) x 4 names (incl. names of built-in top-level functions) x {no, int, nil, function} variable of that name visible from the defining scope x nesting 0..1; " +
 			"G15 rebinding to the same object: 13 values x 12 ways of binding a name again in an inner scope to the object (or an equal cached value) the enclosing variable of that name holds x 2 later reassignments of the enclosing variable x nesting 0..1, a closure made in the inner scope read before and after the reassignment; " +
 			"G2 binding: parameter lists {0..3 positional} x {0..2 keyword} x every argument list of length <=5 (thorough 6) over {positionals, k:, j:, unknown z:, *[0..2 elements], **{k}, **{j,k}, **{w,b}; up to two ** with disjoint names} respecting the grammar, probing parameters and \\ \\N \\0 \\name \\_; " +
 			"G3 receiver passing: function vs method properties x call forms (o.p(x), o['p](o,x), extracted) x anonymous chains in functions, methods and nested literal calls; G4 recursion depth 0..4 with per-frame locals and escaping closures; " +
@@ -834,6 +835,32 @@ func genG15(emit func(tcase)) {
 	}
 }
 
+// G16: a parameter that receives nothing (a keyword parameter left out, a positional parameter beyond the passed
+// arguments) has its default / nil, whatever variable of the same name is visible from the defining scope.
+func genG16(emit func(tcase)) {
+	for _, n := range []string{"k", "to", "assert", "puts"} {
+		for _, outer := range []string{"", n + " := 5\n", n + " := nil\n", n + " := {|| 9}\n"} {
+			for depth := 0; depth <= 1; depth++ {
+				add := func(name, body, val string) {
+					src := outer + body
+					if depth == 1 {
+						src = "{||\n" + src + "\n}()"
+					}
+					emit(tcase{Family: "G16/" + name, Src: src, Val: val, NT: true})
+				}
+				r := strings.NewReplacer("K", n)
+				add("keyword-left-out", r.Replace("f := {|a, K: 1| [a, K]}\n[f(0), f(0, K: 2), f(K: 3, 0), f(0, **{K: 4}), f(0, **{})]"), "[[0, 1], [0, 2], [0, 3], [0, 4], [0, 1]]")
+				add("nested-same-keyword", r.Replace("o := {|K: 1| inner := {|K: 2| K}; [K, inner(), inner(K: 3)]}\n[o(), o(K: 10)]"), "[[1, 2, 3], [10, 2, 3]]")
+				add("method-keyword", r.Replace("ob := {g: m{|K: 1| K}}\nfirst := ob.g\nK := 77\n[first, ob.g, ob.g(K: 2)]"), "[1, 1, 2]")
+				add("iterator-keyword", r.Replace("[<{|K: 1| yield K}>.new.next, <{|K: 1| yield K}>.new(K: 2).next]"), "[1, 2]")
+				add("positional-left-out", r.Replace("f := {|a, K| [a, K]}\n[f(0), f(0, 2), f()]"), "[[0, nil], [0, 2], [nil, nil]]")
+				add("chain-block-keyword", r.Replace("[10, 20]@{|x, K: 1| x + K}"), "[11, 21]")
+				add("keyword-assigned-later-outside", r.Replace("f := {|K: 1| K}\na1 := f()\nK := 88\n[a1, f(), f(K: 2)]"), "[1, 1, 2]")
+			}
+		}
+	}
+}
+
 // ---------------------------------------------------------------- judging
 
 func judge(c *core.Ctx, t tcase, o panrun.Obs) {
@@ -887,6 +914,7 @@ func gen(thorough bool, emit func(tcase)) {
 	genG13(emit)
 	genG14(emit)
 	genG15(emit)
+	genG16(emit)
 	if thorough {
 		genG5(3, emit)
 	} else {
